@@ -1,7 +1,7 @@
 #!/bin/bash
 # Runs every registered quick (or $1=thorough) check once and prints one line per check.
 TIER="${1:-quick}"
-cd /verif || exit 2
+cd "$(dirname "$0")/.." || exit 2
 ./check --build || exit 2
 for id in $(python3 -c "import json;print(' '.join(c['property_id'] for c in json.load(open('MANIFEST.json'))['checks']))"); do
   START=$(date +%s.%N)
